@@ -294,6 +294,11 @@ func (p *H264Packet) parseBody(payload []byte) ([]byte, error) { //nolint:cyclop
 			p.fuaBuffer = []byte{}
 		}
 
+		if payload[1]&fuStartBitmask != 0 {
+			// a start fragment begins a new unit: drop what an unfinished one left behind
+			p.fuaBuffer = p.fuaBuffer[:0]
+		}
+
 		p.fuaBuffer = append(p.fuaBuffer, payload[fuaHeaderSize:]...)
 
 		if payload[1]&fuEndBitmask != 0 {
